@@ -17,7 +17,7 @@ from ..inline import Super, TooBig
 from .c12_queries import receiver_records
 
 TABLE = os.path.join(VERIF, 'tables', 'channels.json')
-HANDLERS = ('set_value', 'set_error', 'set_done')
+HANDLERS = ('set_value', 'set_error', 'set_done', 'set_next')
 
 
 def norm_rec(q):
